@@ -183,6 +183,19 @@ theorem eval_sim (env : Env) (hst : env.Steady) : ∀ f p s t, Sim s t →
       have hr := h.record (recordsAsset (env.types key.ty).hot env.hasReloader) (.asset key)
       rw [hr.lookup key]
       exact ih _ _ _ hr
+    | getOrInsert key v k =>
+      simp only [eval]
+      have hr := h.record (recordsAsset (env.types key.ty).hot env.hasReloader) (.asset key)
+      rw [hr.lookup key]
+      cases hl : (t.record (recordsAsset (env.types key.ty).hot env.hasReloader) (.asset key)).lookup key with
+      | some c => simp only []; exact ih _ _ _ ⟨hr.map, hr.next, hr.recs⟩
+      | none =>
+        simp only []
+        rw [hr.next]
+        have hi := hr.insertKeepFirst key
+          { val := v, dyn := insertedEntryDynamic (env.types key.ty).hot env.hasReloader, rid := ReloadId_NEVER,
+            flag := false, addr := (t.record (recordsAsset (env.types key.ty).hot env.hasReloader) (.asset key)).next }
+        exact ih _ _ _ ⟨hi.1.map, by simp, hi.1.recs⟩
     | tick k =>
       simp only [eval]
       rw [hst.2.2 s.loads t.loads]
